@@ -283,6 +283,40 @@ func genC06(r *rand.Rand, tier string) []Case {
 		}
 		cases = append(cases, c)
 	}
+	// selection by two different criteria with an ineligible table in between: [over the size limit but mostly
+	// tombstones] [over the limit, clean] ... [small]; the run must be filled across the gap, otherwise the middle
+	// tables' versions win over newer ones
+	ng := 6
+	if tier == "thorough" {
+		ng = 150
+	}
+	for i := 0; i < ng; i++ {
+		var keys [][]byte
+		for k := 0; k < 6; k++ {
+			keys = append(keys, []byte(fmt.Sprintf("key%02d", k)))
+		}
+		c := &c06Case{Keys: keys}
+		c.Opts = dbOpts{MemstoreBytes: 1 << 30, Threshold: r.Intn(2), MaxSize: 300, RatioPct: []int{20, 50}[r.Intn(2)], WBuf: 4096, RBuf: 4096}
+		bigv := func() []byte { v := make([]byte, 500+r.Intn(300)); r.Read(v); return v }
+		// table 1: one big value, three tombstones
+		c.Steps = append(c.Steps, dbStep{Op: "put", K: keys[1], V: bigv()}, dbStep{Op: "del", K: keys[2]}, dbStep{Op: "del", K: keys[3]}, dbStep{Op: "del", K: keys[4]}, dbStep{Op: "rotate"})
+		// 1-2 middle tables: big, no tombstones, holding a version of key00 (and of a key deleted later)
+		for m := 0; m < 1+r.Intn(2); m++ {
+			c.Steps = append(c.Steps, dbStep{Op: "put", K: keys[0], V: []byte(fmt.Sprintf("middle-%d", m))}, dbStep{Op: "put", K: keys[5], V: bigv()}, dbStep{Op: "rotate"})
+		}
+		// newest table: small, with the newest version of key00 and a delete of key05
+		c.Steps = append(c.Steps, dbStep{Op: "put", K: keys[0], V: []byte("newest")})
+		if r.Intn(2) == 0 {
+			c.Steps = append(c.Steps, dbStep{Op: "del", K: keys[5]})
+		}
+		c.Steps = append(c.Steps, dbStep{Op: "rotate"}, dbStep{Op: "compact"})
+		if r.Intn(2) == 0 {
+			o := c.Opts
+			c.Steps = append(c.Steps, dbStep{Op: "reopen", Opts: &o})
+		}
+		c.Steps = append(c.Steps, dbStep{Op: "put", K: keys[2], V: []byte("late")}, dbStep{Op: "rotate"}, dbStep{Op: "put", K: keys[3], V: []byte("late")}, dbStep{Op: "rotate"}, dbStep{Op: "compact"})
+		cases = append(cases, c)
+	}
 	return cases
 }
 
